@@ -174,7 +174,7 @@ def main():
             }
         ],
         "checks": checks,
-        "notes": "Known findings: known_findings.json. Replays: replays/. Every check regenerates lean/CvGen from /repo and rebuilds incrementally. Each check audits the abstract property theorems AND the end-to-end theorems (CvProps/C*e.lean, C*m.lean, C14i, C11b, C11x) that instantiate them with the encoded / plain permutation graphs and matrix graphs the library builds. Seeded changes and which check catches which: seeded/, DESIGN.md 11.5. Source pins (harness/extract/pins.json) only direct search effort.",
+        "notes": "Known findings: known_findings.json. Replays: replays/. Every check regenerates lean/CvGen from /repo and rebuilds incrementally. Each check audits the abstract property theorems AND the end-to-end theorems (CvProps/C*e.lean, C*m.lean, C14i, C11b, C11x) that instantiate them with the encoded / plain permutation graphs and matrix graphs the library builds. Seeded changes and which check catches which: seeded/, DESIGN.md 11.5. Source pins (harness/extract/pins.json) only direct search effort. /repo commits 0f8331d and 2f6a4cd cancel each other (a seeded change of /verif/seeded that the end-of-round snapshot committed from a dirty working tree, and its revert; DESIGN.md 13.1): neither is a hook nor a fix, the tree equals 8ed5e13.",
         "not_applicable": na,
     }
     with open(os.path.join(HERE, "MANIFEST.json"), "w") as f:
